@@ -5,7 +5,7 @@
    finding D24 as a refuted statement. Not proved: the query / fragment steps of repeated decoding (decided on the
    implementation over all spellings): partial there. *)
 From Verif Require Import Lib.Base Lib.Utf8 Lib.GoStr Model.Cfg Gen.Tables Gen.Options Model.Sets Model.Url Model.Host Model.Machine Model.Api Model.Canon Proofs.Cleaning.
-From Verif Require Import Proofs.RecordInv Proofs.MachineInv Proofs.HostProofs Proofs.RoundTripBase Proofs.NormalFormPhases Proofs.NormalForm Proofs.SpellingProofs Proofs.SpellingDecode.
+From Verif Require Import Proofs.RecordInv Proofs.MachineInv Proofs.HostProofs Proofs.RoundTripBase Proofs.NormalFormPhases Proofs.NormalForm Proofs.SpellingProofs Proofs.SpellingDecode Proofs.RepeatedSteps Proofs.RepeatedIdem Proofs.RepeatedExamples.
 
 (* surrounding C0/space bytes and embedded tab/newline bytes never change the result (diagnostics off) *)
 Theorem C18_cleaning_congruence : forall idna_raw c, c_report c = false -> c_fail c = false ->
@@ -116,3 +116,45 @@ Theorem C18_nested_dot_segment_refuted :
     norm_segs segs1 <> norm_segs segs2.
 Proof. exact decoded_segments_texts_refuted. Qed.
 Print Assumptions C18_nested_dot_segment_refuted.
+
+(* ================================================================================================================
+   REPEATED PERCENT-DECODING: spellings that differ in (nested) escapes of path segments, query names / values and the
+   fragment (Proofs/RepeatedSteps.v, RepeatedIdem.v). For every profile with repeated decoding whose parser configuration
+   satisfies CfgRT (no Latin-1 override, no skip-equals): two texts of the web-URL grammar that agree as before, except
+   that segments, query pairs and fragment need only have the same FULL DECODING (requiv), canonicalize alike.
+   rep_ok collects what the decoded components must satisfy: literal bytes for the step's encode set (in particular the
+   unreserved characters: RepeatedExamples.rcomps_ok_unres) and no segment that is a dot segment after decoding (exactly
+   the exclusion of known finding D24). Not covered: the two predefined profiles GoogleSafeBrowsing and Semantic, whose
+   parser options (collapse, single-percent-sign, lax host parsing, host functions, skip-equals / Latin-1) lie outside
+   CfgRT: for them the statement is decided on the implementation.
+   ================================================================================================================ *)
+Theorem C18_repeated_spellings_canonicalize_alike : forall idna_raw p, CfgRT (p_cfg p) -> c_skipTrailSlash (p_cfg p) = false ->
+  c_latin1 (p_cfg p) = false -> c_skipEq (p_cfg p) = false -> p_repeated p = true ->
+  forall k1 k2 h, comps_ok (p_cfg p) k1 = true -> comps_ok (p_cfg p) k2 = true -> requiv idna_raw p k1 k2 ->
+  host_val idna_raw (p_cfg p) (k_host k1) = Some h ->
+  rep_ok idna_raw p (nf (p_cfg p) k1 h) -> rep_ok idna_raw p (nf (p_cfg p) k2 h) ->
+  same_cres (ProfileParse idna_raw p (text_of k1)) (ProfileParse idna_raw p (text_of k2)).
+Proof. exact repeated_spelling. Qed.
+Print Assumptions C18_repeated_spellings_canonicalize_alike.
+
+(* the fragment step and the query step by themselves, without any restriction on the alphabet *)
+Theorem C18_fragment_step_decoded_alike : forall idna_raw p u1 u2,
+  eqi (set_fragment u1 None) (set_fragment u2 None) -> rd (Fragment u1) = rd (Fragment u2) ->
+  orel (frag_step idna_raw p u1) (frag_step idna_raw p u2).
+Proof. exact frag_step_same. Qed.
+Print Assumptions C18_fragment_step_decoded_alike.
+
+Theorem C18_query_step_decoded_alike : forall idna_raw p u1 u2 q1 q2,
+  u_sp u1 = None -> u_sp u2 = None -> u_query u1 = Some q1 -> u_query u2 = Some q2 -> is_nil q1 = is_nil q2 ->
+  eqi (set_query u1 None) (set_query u2 None) ->
+  map rd2 (Verif.Model.Api.sp_init (p_cfg p) q1) = map rd2 (Verif.Model.Api.sp_init (p_cfg p) q2) ->
+  orel (query_step idna_raw p u1) (query_step idna_raw p u2).
+Proof. exact query_step_same. Qed.
+Print Assumptions C18_query_step_decoded_alike.
+
+(* the premises are met: HTTP://U:p@H:81/%2561/./b%2Dc?%257a=%2562&c=%64#%2566 and http://U:p@h:81/a/b%252dc?z=b&c=d#f
+   under a profile with repeated decoding alone and under one with removals and sort-query as well *)
+Example C18_repeated_premises_met :
+  same_cres (ProfileParse idna_toy prof_rep (text_of rk1)) (ProfileParse idna_toy prof_rep (text_of rk2)) /\
+  same_cres (ProfileParse idna_toy prof_rep_all (text_of rk1)) (ProfileParse idna_toy prof_rep_all (text_of rk2)).
+Proof. exact repeated_spelling_ex. Qed.
